@@ -6,6 +6,11 @@
 #include "pipeline.h"
 #include "simsched.h"
 #include "simstream.h"
+#include <fstream>
+#include <sstream>
+#include <zlib.h>
+#include <lzma.h>
+#include <arpa/inet.h>
 #include <pthread.h>
 #include <signal.h>
 #include <memory>
@@ -191,7 +196,39 @@ void* thread_main(void* p) {
 
 }  // namespace
 
+// The runtime underneath the library (libstdc++'s locale facets and stream machinery, zlib, liblzma, the resolver's address
+// formatting, the unwinder) initialises caches lazily on first use; inlined parts of it are compiled into the instrumented
+// library objects, so the first run of a process would execute other basic blocks than later ones and schedules would not
+// replay. Those facilities — and nothing of c-dns — are exercised once per process before the first threads run.
+static void warm_runtime_once() {
+    static bool done = false;
+    if (done) return;
+    done = true;
+    simfs::FS& F = simfs::fs();
+    F.reset();
+    {
+        std::ostringstream os;
+        os << 1 << ' ' << 1.5 << std::endl << std::hex << 255 << std::string("x") << 'c' << 1ull << -1ll << true << "lit";
+        (void)os.str();
+        std::istringstream is("12 ab");
+        int v = 0; is >> v;
+        std::stringstream ss; ss << "x" << std::endl; std::string line; std::getline(ss, line);
+    }
+    { std::ofstream f("/sim/warm"); f << "x" << 1 << std::endl; f.write("abc", 3); f.flush(); }
+    { std::ifstream f("/sim/warm", std::ifstream::binary); char c[4]; f.read(c, 4); f.read(c, 4); }
+    { std::ifstream f("/sim/none", std::ifstream::binary); char c; f.read(&c, 1); }
+    F.reset();
+    (void)std::to_string(1); (void)std::to_string(1ull); (void)std::to_string(-1ll);
+    { z_stream zs; memset(&zs, 0, sizeof zs); if (deflateInit2(&zs, Z_DEFAULT_COMPRESSION, Z_DEFLATED, 15 + 16, 8, Z_DEFAULT_STRATEGY) == Z_OK) { unsigned char in[8] = {1, 2, 3}, out[64]; zs.next_in = in; zs.avail_in = 3; zs.next_out = out; zs.avail_out = sizeof out; deflate(&zs, Z_FINISH); deflateEnd(&zs); } }
+    { lzma_stream ls = LZMA_STREAM_INIT; if (lzma_easy_encoder(&ls, 6, LZMA_CHECK_CRC64) == LZMA_OK) { uint8_t in[8] = {1, 2, 3}, out[128]; ls.next_in = in; ls.avail_in = 3; ls.next_out = out; ls.avail_out = sizeof out; lzma_code(&ls, LZMA_FINISH); lzma_end(&ls); } }
+    { char buf[80]; inet_ntop(AF_INET, "\1\2\3\4", buf, sizeof buf); inet_ntop(AF_INET6, "\1\2\3\4\5\6\7\10\1\2\3\4\5\6\7\10", buf, sizeof buf); }
+    try { throw std::runtime_error("warm"); } catch (std::exception&) {}
+    { boost::any a = 1; (void)boost::any_cast<int>(a); boost::any b = std::string("s"); (void)(b.type() == typeid(int)); }
+    std::cerr.flush();
+}
+
 void sim::engine_threads(RunCtx& cx) {
+    warm_runtime_once();
     Rng r(mix_str(cx.seed, "threads"));
     unsigned n = (unsigned)r.range(2, 16);
     unsigned maxq = (unsigned)r.pick(std::vector<unsigned>{5, 20, 100, 500, 3000});
